@@ -463,8 +463,19 @@ class HttpServer:
                 socket_address_to_str((self._bind_address, self._bind_port)),
             )
             self._server.real_request_handlers = self._request_handlers
-            self._main_thread = threading.Thread(target=self._run, daemon=True)
-            self._main_thread.start()
+            try:
+                self._main_thread = threading.Thread(
+                    target=self._run, daemon=True
+                )
+                self._main_thread.start()
+            except BaseException:
+                # If the thread cannot be started, we have to close the server
+                # socket. Otherwise, the port would stay bound even though the
+                # server is not running (and stop() would do nothing).
+                self._main_thread = None
+                self._server.server_close()
+                self._server = None
+                raise
             self._running = True
 
     def stop(self):
